@@ -369,6 +369,50 @@ func runC20(c *Ctx) {
 				}
 				return true
 			})
+			// … or a package-level table of signals that only the initialiser writes
+			if len(sigs) == 0 {
+				if ld, isLd := PArgs(CallOf(sn))[1].(*ssa.UnOp); isLd && ld.Op == token.MUL {
+					if g, isG := ld.X.(*ssa.Global); isG && globalWrittenOnlyByInit(p, g) {
+						elemWritten := false
+						for _, fn := range p.AllFuncs {
+							EachInstrRaw(fn, func(i ssa.Instruction) {
+								if l2, ok := i.(*ssa.UnOp); ok && l2.Op == token.MUL && l2.X == ssa.Value(g) && !(fn.Name() == "init" && fn.Pkg == g.Pkg) {
+									for _, r := range Refs(l2) {
+										if ia, isIA := r.(*ssa.IndexAddr); isIA {
+											for _, rr := range Refs(ia) {
+												if st, isSt := rr.(*ssa.Store); isSt && st.Addr == ssa.Value(ia) {
+													elemWritten = true
+												}
+											}
+										}
+									}
+								}
+							})
+						}
+						if !elemWritten {
+							for _, fn := range p.AllFuncs {
+								if fn.Name() != "init" || fn.Pkg != g.Pkg {
+									continue
+								}
+								EachInstrRaw(fn, func(i ssa.Instruction) {
+									st, isSt := i.(*ssa.Store)
+									if !isSt || st.Addr != ssa.Value(g) {
+										return
+									}
+									SliceBack(st.Val, func(v ssa.Value) bool {
+										if mi, ok := v.(*ssa.MakeInterface); ok {
+											if n, isC := ConstInt(mi.X); isC {
+												sigs[n] = true
+											}
+										}
+										return true
+									})
+								})
+							}
+						}
+					}
+				}
+			}
 			c.Check("C20.S", "signals:exactly-INT-and-TERM", p, sn.Pos(), len(sigs) == 2 && sigs[2] && sigs[15], "signal.Notify(…, SIGINT, SIGTERM)", fmt.Sprintf("the shutdown channel registers signals %v, not exactly SIGINT(2) and SIGTERM(15)", sigs))
 			// goroutine: recv from sigs then close(ch); returned value is ch
 			okG := false
@@ -535,6 +579,33 @@ func runC20(c *Ctx) {
 				}
 			}
 		}
+		// the same test written as `if pollingCtx.Err() != nil { … return }`
+		var errTest ssa.Instruction
+		var errBlk *ssa.BasicBlock
+		if sel == nil {
+			EachInstr(f, func(i ssa.Instruction) {
+				call, isC := i.(*ssa.Call)
+				if !isC || !call.Call.IsInvoke() || call.Call.Method.FullName() != "(context.Context).Err" || PathOf(call.Call.Value) != P(f, 0) {
+					return
+				}
+				for _, r := range Refs(call) {
+					bo, isB := r.(*ssa.BinOp)
+					if !isB || !((bo.X == ssa.Value(call) && IsNilConst(bo.Y)) || (bo.Y == ssa.Value(call) && IsNilConst(bo.X))) {
+						continue
+					}
+					for _, rr := range Refs(bo) {
+						if ifi, isIf := rr.(*ssa.If); isIf {
+							errTest = call
+							if bo.Op == token.NEQ {
+								errBlk = ifi.Block().Succs[0]
+							} else if bo.Op == token.EQL {
+								errBlk = ifi.Block().Succs[1]
+							}
+						}
+					}
+				}
+			})
+		}
 		if list != nil {
 			ok := sel != nil && Dominates(sel, list) && InLoop(sel.Block())
 			if ok {
@@ -548,6 +619,11 @@ func runC20(c *Ctx) {
 				// every path from the list call back to itself passes the select
 				h2, _ := (&Walk{Target: func(i ssa.Instruction) bool { return i == list }, Avoid: func(i ssa.Instruction) bool { return i == ssa.Instruction(sel) }}).FromInstr(list)
 				ok = ok && h2 == nil
+			}
+			if sel == nil && errTest != nil && errBlk != nil && Dominates(errTest, list) && InLoop(errTest.Block()) {
+				h, _ := (&Walk{Target: func(i ssa.Instruction) bool { return i == list }}).FromBlock(errBlk)
+				h2, _ := (&Walk{Target: func(i ssa.Instruction) bool { return i == list }, Avoid: func(i ssa.Instruction) bool { return i == errTest }}).FromInstr(list)
+				ok = h == nil && h2 == nil
 			}
 			c.Check("C20.P", "poll:guarded-by-cancellation-test", p, list.Pos(), ok, "every list call is preceded, in the same iteration, by a non-blocking select on pollingCtx.Done() whose Done arm leaves the loop for good", "a pending-list poll can start without (re)checking pollingCtx.Done() first, or the Done arm does not stop the loop: new polls start after shutdown was requested")
 		}
@@ -587,6 +663,8 @@ func runC20(c *Ctx) {
 		}
 		if sel != nil {
 			c.OK("C20.P", "poll:select-on-polling-context", p, sel.Pos(), "the select watches the polling context parameter")
+		} else if errTest != nil && errBlk != nil {
+			c.OK("C20.P", "poll:select-on-polling-context", p, errTest.Pos(), "the loop tests pollingCtx.Err() (the non-blocking form of the same test)")
 		} else {
 			c.Bad("C20.P", "poll:select-on-polling-context", p, f.Pos(), "pollForNewRequests has no non-blocking select on its polling context's Done()")
 		}
